@@ -3533,10 +3533,14 @@ def r6(ctx):
         # epilogue: after all settings are processed a block is attached only when it has content
         n += 1
         child = _call_arg(c, 1, "config_block")
-        ok = prim == "set_non_empty_config_block" or _guarded_nonempty(ctx, f, c, child)
+        ccls = _block_class(ctx, f, child) if child is not None else None
+        # (a data transform always has its steps / termination children - as for the attachments inside the loop; that it has statements is R10's business)
+        ok = prim == "set_non_empty_config_block" or _guarded_nonempty(ctx, f, c, child) or ccls == "DataTransformBlock"
         name = _call_arg(c, 0, "option")
         ctx.ob("R6", "DOM", f, f"epilogue {prim}({src(name) if name is not None else ''}) on {cls}", ok,
-               "attached only when non-empty" if ok else "block attached unconditionally: an empty block would be emitted", c)
+               ("attached only when non-empty" if ccls != "DataTransformBlock" or prim == "set_non_empty_config_block" else
+                "a data transform always has its steps/termination children (that it has statements is R10's business)") if ok else
+               "block attached unconditionally: an empty block would be emitted", c)
     ctx.rep.count("epilogue_attachments", n, floor=8)
     g = ctx.repo.func("c2profile.ConfigBlock.set_non_empty_config_block")
     gp = params(g.node)
